@@ -53,9 +53,14 @@ class FileStandIn:
 
     def __init__(self, text):
         self.text = text
+        self.pos = 0
 
-    def read(self):
-        return self.text
+    def read(self, n=None):
+        """the rest (n omitted) or the next n characters / bytes, as a file or BytesIO does"""
+        end = len(self.text) if n is None or n < 0 else min(len(self.text), self.pos + n)
+        out = self.text[self.pos:end]
+        self.pos = end
+        return out
 
 
 class IterStandIn:
